@@ -250,6 +250,8 @@ const (
 	backquoteMarker  = marker('b')
 	commaMarker      = marker(',')
 	commaAtMarker    = marker('@')
+	// The consing dot token in a list as opposed to the symbol |.|.
+	dotMarker = marker('.')
 )
 
 var (
@@ -886,6 +888,12 @@ func (r *reader) closeList() {
 	copy(list, r.stack[start+1:])
 	// TBD does the stack need to be cleared (set to nil) before shrinking?
 	r.stack = r.stack[:start+1]
+	dotted := 3 <= len(list) && list[len(list)-2] == dotMarker
+	for i, v := range list {
+		if v == dotMarker {
+			list[i] = Symbol(".")
+		}
+	}
 	var obj Object
 	switch to := r.stack[start].(type) {
 	case *Vector:
@@ -896,7 +904,7 @@ func (r *reader) closeList() {
 	case Complex:
 		obj = newComplex(list)
 	default:
-		if 3 <= len(list) && list[len(list)-2] == Symbol(".") {
+		if dotted {
 			if list[len(list)-1] == nil {
 				// (a . nil) is (a)
 				list = list[:len(list)-2]
@@ -1041,7 +1049,11 @@ func (r *reader) pushToken(src []byte) {
 			return
 		}
 	}
-	obj = r.resolveToken(token)
+	if size == 1 && token[0] == '.' && 0 < len(r.stack) {
+		obj = dotMarker
+	} else {
+		obj = r.resolveToken(token)
+	}
 Push:
 	if 0 < len(r.stack) {
 		r.stack = append(r.stack, obj)
